@@ -208,3 +208,15 @@ package webp
 //@   modifies *
 //@   abstract Encode
 //@   callsite Encode: assert arg2 != nil && resolveAlphaQuality(arg2.AlphaQuality) == 100 && arg2.Lossless == isLossless
+//
+// ---- C16: GetFeatures reports the parser's view, field by field ----
+//
+// The same parser result that DecodeConfig and Decode use: width, height,
+// alpha, animation flag and loop count are the container's, the frame count is
+// the number of parsed frames, and the format string names the container
+// format.
+//@ func GetFeatures
+//@   property C16
+//@   ensures result1 == nil ==> result0 != nil && result0.Width == p.features.Width && result0.Height == p.features.Height
+//@   ensures result1 == nil ==> result0.HasAlpha == p.features.HasAlpha && result0.HasAnimation == p.features.HasAnim && result0.LoopCount == p.features.LoopCount
+//@   ensures result1 == nil ==> result0.FrameCount == len(p.frames)
